@@ -33,18 +33,23 @@ Record ctl_sess := {
 
 Record ctl_state := {
   st_cfgs : list ctl_cfg;       (* clientCfgs *)
-  st_alive : list Z;            (* sid channels whose receiving goroutine (XTCPProxy.Run) is still there *)
+  st_alive : list Z;            (* sid channels whose goroutine (XTCPProxy.Run's loop) sits in its select: it can take a sid *)
+  st_busy : list Z;             (* ... whose goroutine is handing a sid over (GetWorkConnFromPool, WriteMsg): up to 10 s *)
+  st_closedch : list Z;         (* ... whose proxy's closeCh is closed *)
   st_next_chan : Z;
   st_next_sid : Z;
   st_sess : list ctl_sess;
   st_an : nh_analyzer }.
 
 Definition ctl_init : ctl_state :=
-  {| st_cfgs := []; st_alive := []; st_next_chan := 0; st_next_sid := 0; st_sess := []; st_an := [] |}.
+  {| st_cfgs := []; st_alive := []; st_busy := []; st_closedch := []; st_next_chan := 0; st_next_sid := 0; st_sess := []; st_an := [] |}.
 
 Inductive ctl_ev :=
 | EvListen (name sk : bytes) (allow : list bytes)
-| EvClose (name : bytes)
+| EvClose (name : bytes)              (* CloseClient and the end of a stand-in receiver at once (controller driver) *)
+| EvProxyClose (name : bytes)         (* XTCPProxy.Close: BaseProxy.Close; CloseClient(name) SYNCHRONOUSLY; close(closeCh) *)
+| EvHandoverDone (ch : Z)             (* the loop of XTCPProxy.Run is back in its select after handing a sid over *)
+| EvLoopExit (ch : Z)                 (* the loop sees closeCh in its select and returns *)
 | EvVisitor (vm : nh_vmsg) (tr : Z) (user : bytes)
 | EvDeliver (t : Z)
 | EvGiveUp (t : Z)                 (* the hand-over timed out: return, deferred delete *)
@@ -100,7 +105,7 @@ Definition ctl_delete (pc : ctl_pc) (s : ctl_sess) : ctl_sess :=
      ss_token := ss_token s; ss_reco := ss_reco s; ss_resps := ss_resps s; ss_in_table := false; ss_pc := pc |}.
 
 Definition ctl_with_sess (st : ctl_state) (l : list ctl_sess) : ctl_state :=
-  {| st_cfgs := st_cfgs st; st_alive := st_alive st; st_next_chan := st_next_chan st; st_next_sid := st_next_sid st;
+  {| st_cfgs := st_cfgs st; st_alive := st_alive st; st_busy := st_busy st; st_closedch := st_closedch st; st_next_chan := st_next_chan st; st_next_sid := st_next_sid st;
      st_sess := l; st_an := st_an st |}.
 
 Section Ctl.
@@ -116,7 +121,7 @@ Section Ctl.
         | None =>
             let ch := st_next_chan st in
             Some ({| st_cfgs := {| cc_name := name; cc_sk := sk; cc_allow := allow; cc_chan := ch |} :: st_cfgs st;
-                     st_alive := ch :: st_alive st; st_next_chan := ch + 1; st_next_sid := st_next_sid st;
+                     st_alive := ch :: st_alive st; st_busy := st_busy st; st_closedch := st_closedch st; st_next_chan := ch + 1; st_next_sid := st_next_sid st;
                      st_sess := st_sess st; st_an := st_an st |}, [OutListen true ch])
         end
     | EvClose name =>
@@ -124,8 +129,32 @@ Section Ctl.
                      | Some c => filter (fun x => negb (x =? cc_chan c)) (st_alive st)
                      | None => st_alive st
                      end in
-        Some ({| st_cfgs := ctl_remove_cfg name (st_cfgs st); st_alive := alive; st_next_chan := st_next_chan st;
+        let busy := match ctl_find_cfg name (st_cfgs st) with
+                    | Some c => filter (fun x => negb (x =? cc_chan c)) (st_busy st)
+                    | None => st_busy st
+                    end in
+        Some ({| st_cfgs := ctl_remove_cfg name (st_cfgs st); st_alive := alive; st_busy := busy; st_closedch := st_closedch st; st_next_chan := st_next_chan st;
                  st_next_sid := st_next_sid st; st_sess := st_sess st; st_an := st_an st |}, [])
+    | EvProxyClose name =>
+        let closed := match ctl_find_cfg name (st_cfgs st) with
+                      | Some c => cc_chan c :: st_closedch st
+                      | None => st_closedch st
+                      end in
+        Some ({| st_cfgs := ctl_remove_cfg name (st_cfgs st); st_alive := st_alive st; st_busy := st_busy st;
+                 st_closedch := closed; st_next_chan := st_next_chan st; st_next_sid := st_next_sid st;
+                 st_sess := st_sess st; st_an := st_an st |}, [])
+    | EvHandoverDone ch =>
+        if ctl_zin ch (st_busy st)
+        then Some ({| st_cfgs := st_cfgs st; st_alive := ch :: st_alive st;
+                      st_busy := filter (fun x => negb (x =? ch)) (st_busy st); st_closedch := st_closedch st;
+                      st_next_chan := st_next_chan st; st_next_sid := st_next_sid st; st_sess := st_sess st; st_an := st_an st |}, [])
+        else None
+    | EvLoopExit ch =>
+        if ctl_zin ch (st_alive st) && ctl_zin ch (st_closedch st)
+        then Some ({| st_cfgs := st_cfgs st; st_alive := filter (fun x => negb (x =? ch)) (st_alive st);
+                      st_busy := st_busy st; st_closedch := st_closedch st;
+                      st_next_chan := st_next_chan st; st_next_sid := st_next_sid st; st_sess := st_sess st; st_an := st_an st |}, [])
+        else None
     | EvVisitor vm tr user =>
         let reply e := Some (st, [OutReply tr (nh_err_resp (vm_tid vm) e)]) in
         if vm_precheck vm then
@@ -143,7 +172,7 @@ Section Ctl.
                 let sid := st_next_sid st in
                 let s := {| ss_sid := sid; ss_chan := cc_chan cfg; ss_vmsg := vm; ss_vtr := tr; ss_client := None;
                             ss_token := false; ss_reco := None; ss_resps := None; ss_in_table := true; ss_pc := PcNotify |} in
-                Some ({| st_cfgs := st_cfgs st; st_alive := st_alive st; st_next_chan := st_next_chan st;
+                Some ({| st_cfgs := st_cfgs st; st_alive := st_alive st; st_busy := st_busy st; st_closedch := st_closedch st; st_next_chan := st_next_chan st;
                          st_next_sid := sid + 1; st_sess := st_sess st ++ [s]; st_an := st_an st |}, [])
           end
     | EvDeliver t =>
@@ -151,7 +180,12 @@ Section Ctl.
         | Some s =>
             match ss_pc s with
             | PcNotify => if ctl_zin (ss_chan s) (st_alive st)
-                          then Some (ctl_with_sess st (ctl_update t (ctl_set_pc PcWait) (st_sess st)), [OutSid (ss_chan s) t])
+                          then Some ({| st_cfgs := st_cfgs st;
+                                        st_alive := filter (fun x => negb (x =? ss_chan s)) (st_alive st);
+                                        st_busy := ss_chan s :: st_busy st; st_closedch := st_closedch st;
+                                        st_next_chan := st_next_chan st; st_next_sid := st_next_sid st;
+                                        st_sess := ctl_update t (ctl_set_pc PcWait) (st_sess st); st_an := st_an st |},
+                                     [OutSid (ss_chan s) t])
                           else None
             | _ => None
             end
@@ -206,7 +240,7 @@ Section Ctl.
             match ss_pc s, ss_client s with
             | PcAnalyse, Some (cm, _) =>
                 let upd an reco rv rc :=
-                  Some ({| st_cfgs := st_cfgs st; st_alive := st_alive st; st_next_chan := st_next_chan st;
+                  Some ({| st_cfgs := st_cfgs st; st_alive := st_alive st; st_busy := st_busy st; st_closedch := st_closedch st; st_next_chan := st_next_chan st;
                            st_next_sid := st_next_sid st;
                            st_sess := ctl_update t (fun s =>
                              {| ss_sid := ss_sid s; ss_chan := ss_chan s; ss_vmsg := ss_vmsg s; ss_vtr := ss_vtr s;
@@ -259,7 +293,7 @@ Section Ctl.
             | Some s =>
                 match success, ss_reco s with
                 | true, Some (k, m, i) =>
-                    Some ({| st_cfgs := st_cfgs st; st_alive := st_alive st; st_next_chan := st_next_chan st;
+                    Some ({| st_cfgs := st_cfgs st; st_alive := st_alive st; st_busy := st_busy st; st_closedch := st_closedch st; st_next_chan := st_next_chan st;
                              st_next_sid := st_next_sid st; st_sess := st_sess st; st_an := nh_report (st_an st) k m i |}, [])
                 | _, _ => Some (st, [])
                 end
